@@ -98,6 +98,18 @@ AvpRecInputs ==
     : len \in (0..10) \cup {1023}, h \in {0, 1}, vendor \in {0, 9}, t \in {0, 7, 20, 39, 65535},
       follow \in {<< >>, RecHost, <<1, 2, 3>>}, wrap \in {"ctl", "bare"} }
 
+\* records that need the high bits of the 10-bit length: total length 255..257, 511..513, 1022..1023,
+\* declared exactly / one short / one long, alone and followed by another record
+AvpBigInputs ==
+  { LET payload == [i \in 1..n |-> (i * 3) % 256]
+        rec == Rec(1, 6 + n + d, 0, 7, payload)
+        body == (IF wrap = "ctl" THEN RecMT ELSE << >>) \o rec \o follow
+    IN IF wrap = "ctl" THEN InitMessage(CtlExact(body), StrictOpts, 0) ELSE InitAvps(body)
+    : n \in {249, 250, 251, 505, 506, 507, 1016, 1017}, d \in {0, 1}, follow \in {<< >>, RecHost},
+      wrap \in {"ctl", "bare"} }
+  \cup
+  { InitAvps(Rec(1, 6 + n - 1, 0, 7, [i \in 1..n |-> i % 256])) : n \in {250, 251, 506, 507, 1017} }
+
 \* every AVP kind (and two unassigned numbers) at payload length 0 .. min+2, three contents
 KindInputs ==
   { IF mode = "payload" THEN InitPayload(Pattern(pat, n), t, 0, n)
@@ -158,14 +170,14 @@ FlagInputs(W) == { InitMessage(Be16(w) \o FlagTail(w), NoOpts, 0) : w \in W }
 Inputs ==
   CASE Family = "framing" -> FramingInputs
     [] Family = "ctllen"  -> CtlLenInputs
-    [] Family = "avprec"  -> AvpRecInputs
+    [] Family = "avprec"  -> AvpRecInputs \cup AvpBigInputs
     [] Family = "kinds"   -> KindInputs
     [] Family = "loop3"   -> LoopInputs(3)
     [] Family = "loop4"   -> LoopInputs(4)
     [] Family = "data"    -> DataInputs
     [] Family = "flagsq"  -> FlagInputs(FlagWordsQuick)
     [] Family = "flagsall" -> FlagInputs(0..65535)
-    [] Family = "all"     -> FramingInputs \cup CtlLenInputs \cup AvpRecInputs \cup KindInputs
+    [] Family = "all"     -> FramingInputs \cup CtlLenInputs \cup AvpRecInputs \cup AvpBigInputs \cup KindInputs
                                \cup LoopInputs(3) \cup DataInputs
 
 ---------------------------------------------------------------------------
